@@ -61,6 +61,17 @@ def gen_problem(rng, tier):
     else:
         nrooms = rng.randint(1, max(1, (h * w + 1) // 2 + 1))
     nrooms = min(nrooms, h * w)
+    return _gen(rng, h, w, nrooms)
+
+
+def extra_program_problems(rng):
+    """Larger boards for the program correspondence only (nothing is enumerated there): one non-square medium board and two
+    with more than 256 cells (a tall and a wide one), rooms of 2 to 8 cells on average."""
+    from . import _loop
+    return [_gen(rng, h, w, rng.randint(h * w // 8, h * w // 2)) for h, w in _loop.big_shapes(rng)]
+
+
+def _gen(rng, h, w, nrooms):
     rooms = _partition(rng, h, w, nrooms, connected=rng.random() < 0.8)
     for room in rooms:
         if rng.random() < 0.5:
